@@ -58,6 +58,10 @@ CLAIMS = {
     "C16": ("one inductive step per entry point and spec form: the caller's spec is type-exactly unchanged by a parse, the second and "
             "third parse of the same structure equal the first and the module lookup tables are unchanged, for every value of the "
             "symbolic atoms inside the spec - hence any number of repeated parses", "3 C16"),
+    "C19": ("(a) every injected definite error - incl. every non-DSL attribute name of the seven condition classes and of DataPath, "
+            "regenerated from the source each run - must raise one of the listed spec errors (never be accepted, never an internal "
+            "error), for every value of the symbolic payload; (b) at 28 spec positions every payload skeleton with symbolic atoms is "
+            "accepted or rejected with a listed error", "3 C19"),
     "C14": ("equality laws (reflexive/symmetric/transitive, rebuilt and commuted copies equal) and 'equal implies same "
             "behaviour' decided for every value of the differing atom (key, index, argument, label) and of the probe "
             "document's leaves, per term kind", "3 C14"),
